@@ -197,7 +197,7 @@ def main():
         "version": 1,
         "setup_cmd": "./check setup",
         "hooks": {
-            "guard": "cargo feature `verif-hooks` of crate lightmotif",
+            "guard": "cargo feature `verif-hooks` of the crates lightmotif and lightmotif-tfmpvalue (off by default)",
             "enable": "the harness crates /verif/harness and /verif/pyharness depend on lightmotif with features=[\"verif-hooks\"] "
                       "(path dependency on /repo/lightmotif, rebuilt from the working tree by every check)",
             "baseline_off_cmd": "cd /repo && cargo test --workspace --no-fail-fast --offline",
